@@ -10,7 +10,12 @@ PID = "C11"
 PROPS_MODULE = "NumbersModel.Props.C11"
 THEOREMS = [f"NumbersModel.Props.C11.{t}" for t in (
     "a1_rc_resolve", "a1_rc_agree_read", "a1_rc_agree_write", "read_bounds", "write_bounds", "write_limits_gen",
-    "iter_rows_exact", "iter_cols_exact", "iter_defaults", "range_is_interval")]
+    "iter_rows_exact", "iter_cols_exact", "iter_defaults", "range_is_interval")] + [
+    # the iterator clauses over the bounds prefixes py2lean regenerates from Table.iter_rows / iter_cols on every run
+    "NumbersModel.Props.C11.Src.src_iter_rows_exact", "NumbersModel.Props.C11.Src.src_iter_cols_exact",
+    "NumbersModel.Props.C11.Src.src_iter_defaults", "NumbersModel.Translated.iter_rows_eq_model",
+    "NumbersModel.Translated.iter_cols_eq_model"]
+TRANSLATED_GROUPS = ("Addr", "A1")
 PARTIAL = {}
 RULE = ("positions: rows {-3..3} u {n-2..n+2} u {999998..1000001}, cols {-3..3} u {m-2..m+2} u {998..1001}, in row/column "
         "form and every A1 spelling ('' '$' marks, plus 'A0', lower case, malformed) x methods {cell, write, set_cell_style, "
@@ -25,9 +30,13 @@ MANIFEST = {
             "for any negative or beyond-limit position; otherwise growth to exactly max(rows,r+1) x max(cols,c+1)), "
             "iter_rows_exact/iter_cols_exact (exactly the addressed rectangle in order; bounds raise before anything is yielded) "
             "are Lean theorems for all integers and all table sizes. The model of cell/_validate_cell_coords/iter_* is tied to "
-            "the code by a correspondence that enumerates the quantifier's position grid for all five methods.",
+            "the code by a correspondence that enumerates the quantifier's position grid for all five methods. The defaulting "
+            "and bounds-checking prefixes of iter_rows / iter_cols are additionally TRANSLATED from document.py on every run "
+            "(harness/py2lean.py -> Gen/TrAddr.lean), proved equal to the model (Lemmas/TrAddr.lean) and the iterator clauses "
+            "restated over them (Props.C11.Src.src_iter_*); the translated prefixes are run against the real generators on the "
+            "whole iterator grid.",
     "note": "the table is modelled by its dimensions and the index pair addressed; cell contents and growth are C03.",
-    "technique": "Lean 4 proof (case analysis, omega; reuse of C10 theorems) + enumerated differential correspondence",
+    "technique": "Lean 4 proof (case analysis, omega; reuse of C10 theorems; iterator bounds proved equal to their translation from the Python source) + enumerated differential correspondence",
 }
 
 SIZES_ALL = [(1, 1), (3, 2), (12, 8)]
@@ -251,7 +260,7 @@ def run(ctx: Ctx):
                     ctx.violation(f"{name}-wrong-rectangle", f"{name}{(a, b, c, d)} on {n}x{m} yielded {got}, expected {exp}", inp)
                 if not valid and o != "err IndexError":
                     ctx.violation(f"{name}-bounds-not-rejected", f"{name}{(a, b, c, d)} on {n}x{m}: {o[:60]}, expected IndexError", inp)
-    ctx.correspond("iter_rows/iter_cols: all (min,max) from {None,-1,0,1,last,last+1} on both axes, 3 table sizes", req, out, exhaustive=True)
+    ctx.correspond("iter_rows/iter_cols: all (min,max) from {None,-1,0,1,last,last+1} on both axes, 3 table sizes", req, out, exhaustive=True, translated=True)
 
     if not ctx.quick:
         # growth to the documented row limit (one single-column table)
